@@ -75,7 +75,10 @@ CLAIMED = {
             "substitution and convert() (regenerated) succeed and every resulting real operation denotes an "
             "instruction whose operands fit their machine fields (valid_instr); relative label branches accepted by "
             "convert_ops carry an in-range distance; such instructions assemble to their table word (C05) and execute "
-            "from well-formed states without raising, for runs of any length (C02). The composition through "
+            "from well-formed states without raising, for runs of any length (C02). At program level: in an accepted "
+            "program the symbol table each operation is type-checked against is contained, binding for binding, in the "
+            "table the preprocessor substitutes from (names are declared once; bindings never change) — so the values "
+            "that were range-checked are the values that reach the instructions. The rest of the composition through "
             "checker.check() is hand-modelled (Model/Preproc.v, differential) and exercised on the real tool in "
             "run/assemble/preprocess mode: assemble->disassemble identity of every emitted operation, no internal "
             "exception in run, assemble (--code/--data), preprocess (--obfuscate).",
